@@ -134,7 +134,8 @@ CLAIMED = {
           "models is their acceptance by Lean. Six internal-error escapes on the unchanged tree were repaired (F12 F19 F20 F23 ...); maven "
           "RecursionError recorded (K06).",
           "PARTIAL: running time (regex backtracking, big-int arithmetic, recursion limit) is runtime behaviour: measured on inputs of length 2^k with a "
-          "fitted exponent, not proved. gem InvalidRequirementError (an AttributeError subclass) and ConanException count as the library's declared errors.",
+          "fitted exponent, not proved; a child process that is killed after 10 s per input screens short adversarial inputs first (a hang inside the re module cannot be "
+          "interrupted from within), and the whole check runs under a supervisor with a deadline. gem InvalidRequirementError (an AttributeError subclass) and ConanException count as the library's declared errors.",
           "§7 C16", "Lean 4 proof (reachable error constructors) + correspondence + fuzzing and timing on the real code"),
  "C17": P("Lean theorems history_meaning / history_membership / history_text_stable by induction on the list of operations: starting from any "
           "well-formed range, ANY finite sequence of print+parse, rebuild from shuffled constraints, simplify (any hash seed), validate and invert "
